@@ -7,6 +7,7 @@ pub mod c06;
 pub mod c07;
 pub mod c12;
 pub mod c14;
+pub mod c15;
 pub mod c17;
 pub mod c18;
 pub mod c19;
@@ -26,6 +27,7 @@ pub const PROPS: &[Prop] = &[
     Prop { id: "C07", run: c07::run, replay: c07::replay },
     Prop { id: "C12", run: c12::run, replay: c12::replay },
     Prop { id: "C14", run: c14::run, replay: c14::replay },
+    Prop { id: "C15", run: c15::run, replay: c15::replay },
     Prop { id: "C17", run: c17::run, replay: c17::replay },
     Prop { id: "C18", run: c18::run, replay: c18::replay },
     Prop { id: "C19", run: c19::run, replay: c19::replay },
